@@ -293,13 +293,22 @@ class Ctx:
         except UnknownViolation:
             sig, case, detail = self._last_fail
             self._record_unknown(sig, case, detail)
+        except hypothesis.errors.FlakyStrategyDefinition:
+            raise  # the harness' own generator is non-deterministic: a harness error
         except hypothesis.errors.Flaky:
-            # the wall-clock budget ran out while hypothesis was shrinking: its final re-run of the minimal case was
-            # skipped by out_of_time() above and looks "flaky" to it. The violation was real (it raised at least once in
-            # this explore): report the smallest failing case seen so far instead of turning it into a harness error.
-            if self._last_fail is None or not self.out_of_time():
+            # hypothesis could not reproduce a failure it had seen. Two causes, neither of them a harness error once the
+            # oracle has fired (ctx.violation with an unlisted signature raised at least once in this explore):
+            # (a) the wall-clock budget ran out while shrinking - the final re-run of the minimal case was skipped by
+            #     out_of_time() above; (b) the code under test carries state from one case to the next (a cache, a
+            #     class-level table), so a case that failed once passes when re-run. Report the last failing case seen
+            #     (hypothesis only keeps shrinks that still fail, so it is the smallest one) instead of hiding the
+            #     violation behind exit 2. Without a recorded violation the Flaky is a genuine harness problem.
+            if self._last_fail is None:
                 raise
             sig, case, detail = self._last_fail
+            if not self.out_of_time():
+                detail = "%s [not reproducible in-process by re-running this case alone: state carried across cases?]" % (detail,)
+                self.count("violation-not-reproduced-by-rerun")
             self._record_unknown(sig, case, detail)
         finally:
             self._raise_unknown = False
@@ -320,10 +329,15 @@ class Ctx:
         except UnknownViolation:
             sig, case, detail = self._last_fail
             self._record_unknown(sig, case, detail)
+        except hypothesis.errors.FlakyStrategyDefinition:
+            raise  # the harness' own generator is non-deterministic: a harness error
         except hypothesis.errors.Flaky:
-            if self._last_fail is None or not self.out_of_time():
+            if self._last_fail is None:
                 raise
             sig, case, detail = self._last_fail
+            if not self.out_of_time():
+                detail = "%s [not reproducible in-process by re-running this history alone: state carried across cases?]" % (detail,)
+                self.count("violation-not-reproduced-by-rerun")
             self._record_unknown(sig, case, detail)
         finally:
             self._raise_unknown = False
